@@ -12,7 +12,7 @@
     "Every cache content" = every state satisfying the C12 invariant [Inv], i.e. (C12) every state
     the cache operations can reach; the theorems are stated for [Inv] and for histories. *)
 From CM Require Import Lib.Str Lib.QualSteps Gen.Consts Cache.Model Cache.AMapFacts Cache.Proofs Cache.Check
-  Lookup.Model Lookup.Proofs Lookup.ProofsX Lookup.Check Lookup.SpecProofs.
+  Lookup.Model Lookup.Proofs Lookup.ProofsX Lookup.Check Lookup.SpecProofs Lookup.Final.
 From Coq Require Import Arith.
 Open Scope nat_scope.
 
@@ -454,4 +454,202 @@ Proof.
   repeat split; try (vm_compute; reflexivity).
   intros k x H. cbn in H. destruct (str_eqb k n_qy) eqn:E; [|discriminate].
   injection H as <-. apply str_eqb_eq in E. subst k. left. reflexivity.
+Qed.
+
+(** ================= final round: the remaining monitor clauses, IPv4-mapped local addresses, what
+    "exact preferred" guarantees ================= *)
+
+(** SubjectQualifiesForCert: what the conjuncts read from the source say is the documented rule the
+    monitor judges the implementation by *)
+Theorem C03_qualifies_is_documented_rule : forall is_space s,
+  subject_qualifies is_space s = qual_spec is_space s.
+Proof. exact subject_qualifies_is_documented_rule. Qed.
+Print Assumptions C03_qualifies_is_documented_rule.
+
+(** the MatchWildcard clause of the monitor holds of the model *)
+Theorem C03_spec_match_of_model : forall lower a b, spec_match lower a b (match_wildcard lower a b) = true.
+Proof. exact spec_match_of_model. Qed.
+Print Assumptions C03_spec_match_of_model.
+
+(** monitor soundness, all clauses at once: on what the model answers, [check_case] is 0 ("model
+    agrees, specification holds") for a GetCertificate case -- answer, cache afterwards,
+    AllMatchingCertificates, every clause of spec_lookup_o / spec_cache_p / spec_amc_o -- ... *)
+Theorem C03_check_lookup_of_model : forall lt st c,
+  let lower := tbl_lower lt in
+  let is_space := tbl_space st in
+  let nm := names_of_pool (Check.case_certs c) in
+  Inv nm (l_cap c) (l_state c) ->
+  (forall h x, alookup h (cache (l_state c)) = Some x -> at_complete (attr_get (l_attrs c) h) = true) ->
+  (forall h x, alookup h (cache (l_state c)) = Some x -> at_names (attr_get (l_attrs c) h) = c_names x) ->
+  (forall k x, alookup k (x_storage (l_envx c)) = Some x ->
+     alookup (c_hash (sd_cert x)) (l_stored_complete c) = Some true) ->
+  (forall k x, alookup k (x_storage (l_envx c)) = Some x -> wf_cert nm (sd_cert x)) ->
+  check_case (KLookup lt st (complete_case lower is_space c)) = 0%Z.
+Proof. exact check_lookup_of_model. Qed.
+Print Assumptions C03_check_lookup_of_model.
+
+(** ... and for the MatchWildcard, normalizedName, SubjectQualifiesForCert and
+    getNameFromClientHello cases *)
+Theorem C03_check_other_kinds_of_model :
+  (forall lt a b, check_case (KMatch lt a b (match_wildcard (tbl_lower lt) a b)) = 0%Z) /\
+  (forall lt st s, check_case (KNorm lt st s (normalize (tbl_lower lt) (tbl_space st) s)) = 0%Z) /\
+  (forall st s, check_case (KQual st s (subject_qualifies (tbl_space st) s)) = 0%Z) /\
+  (forall lt st d ip i, check_case (KName lt st d ip i (hello_name (tbl_lower lt) (tbl_space st) (Config d []) ip i)) = 0%Z).
+Proof. exact check_other_kinds_of_model. Qed.
+Print Assumptions C03_check_other_kinds_of_model.
+
+(** the local IP is the TEXTUAL address: an IPv4 address reported in its 16-byte, IPv4-mapped form
+    (::ffff:a.b.c.d) has the same text as the 4-byte form, so every lookup -- and the preference for
+    the local IP's certificate without SNI -- is the same for both *)
+Theorem C03_local_ip_text_v4mapped : forall lower is_space sel conn s cap cfg sni e text6 a b c d,
+  ip_text text6 (v4mapped a b c d) = dotted a b c d /\
+  ip_text text6 [a; b; c; d] = dotted a b c d /\
+  lookup_x lower is_space sel conn s cap cfg sni (ip_text text6 (v4mapped a b c d)) e =
+  lookup_x lower is_space sel conn s cap cfg sni (ip_text text6 [a; b; c; d]) e.
+Proof.
+  intros. split; [rewrite ip_text_v4mapped; apply ip_text_v4|]. split; [apply ip_text_v4|].
+  apply lookup_same_for_v4mapped.
+Qed.
+Print Assumptions C03_local_ip_text_v4mapped.
+
+Theorem C03_ip_preferred_v4mapped : forall lower is_space sup valid names_of cap s cfg sni e text6 a b c d,
+  Inv names_of cap s -> normalize lower is_space sni = [] -> idx s (dotted a b c d) <> [] ->
+  exists x, fst (lookup_x lower is_space (select_cert sup valid) true s cap cfg sni (ip_text text6 (v4mapped a b c d)) e) = ROk x /\
+            In (dotted a b c d) (c_names x) /\ In x (get_all_matching_certs s (dotted a b c d)).
+Proof. intros. eapply ip_preferred_v4mapped; eauto. Qed.
+Print Assumptions C03_ip_preferred_v4mapped.
+
+(** what "exact preferred over wildcard" guarantees, precisely: the selector only ever sees the
+    certificates listed under the exact name, so when the exact name is listed the answer is one of
+    THEM -- even if all of them are expired or unsupported and a certificate listed under a wildcard
+    candidate is supported and unexpired; a certificate that does not list the exact name is answered
+    only when the exact name is not listed at all *)
+Theorem C03_exact_preferred_even_if_unusable : forall lower is_space sup valid names_of cap s cfg sni ip e w cw,
+  Inv names_of cap s ->
+  let n := normalize lower is_space sni in
+  n <> [] -> idx s n <> [] ->
+  (forall c, In c (get_all_matching_certs s n) -> ~ good sup valid c) ->
+  In w (wildcard_candidates n) -> In cw (get_all_matching_certs s w) -> good sup valid cw ->
+  exists c, lookup lower is_space sup valid s cap cfg sni ip e = ROk c /\
+            In c (get_all_matching_certs s n) /\ ~ good sup valid c.
+Proof. intros. eapply exact_preferred_even_if_unusable; eauto. Qed.
+Print Assumptions C03_exact_preferred_even_if_unusable.
+
+Theorem C03_wildcard_only_if_exact_unlisted : forall lower is_space sup valid names_of cap s cfg sni ip e c,
+  Inv names_of cap s ->
+  let n := normalize lower is_space sni in
+  n <> [] -> lookup lower is_space sup valid s cap cfg sni ip e = ROk c ->
+  alookup (c_hash c) (cache s) = Some c -> ~ In n (c_names c) ->
+  idx s n = [].
+Proof. intros. eapply wildcard_only_if_exact_unlisted; eauto. Qed.
+Print Assumptions C03_wildcard_only_if_exact_unlisted.
+
+(** the property at the level of Config.GetCertificate, over HISTORIES: [reachable] = every cache
+    that any sequence of cache operations (C12's: adds, removals, replacements, write-backs,
+    SetOptions, queries, scans, Stop) and earlier handshakes (which may load from storage and evict)
+    can produce from the empty cache; every such cache satisfies the C12 invariant, and on it
+    GetCertificate is sound *)
+Theorem C03_reachable_caches_are_invariant : forall names_of d,
+  reachable names_of d -> DInv names_of d.
+Proof. exact reachable_inv. Qed.
+Print Assumptions C03_reachable_caches_are_invariant.
+
+Theorem C03_get_certificate_sound_reachable :
+  forall names_of d lower is_space sup valid abort protos conn cfg sni ip e c s',
+  reachable names_of d -> storage_wf (x_storage e) ->
+  get_certificate lower is_space (select_cert sup valid) abort protos conn (d_st d) (d_cap d) cfg sni ip e = (ROk c, s') ->
+  let n := normalize lower is_space sni in
+  (alookup (c_hash c) (cache (d_st d)) = Some c /\
+   ((n <> [] /\ exists san, In san (c_names c) /\ covers san n) \/
+    (n = [] /\ conn = true /\ In ip (c_names c)) \/
+    (n = [] /\ default_name cfg <> [] /\ In (normalize lower is_space (default_name cfg)) (c_names c)) \/
+    (fallback_name cfg <> [] /\ In (normalize lower is_space (fallback_name cfg)) (c_names c)))) \/
+  (almost_full (d_cap d) (length (cache (d_st d))) = true /\
+   exists nm x, hello_name lower is_space cfg ip (x_idna e) = Some nm /\
+                subject_qualifies is_space nm = true /\
+                load_from_storage (x_storage e) (x_broken e) nm = Some x /\ sd_servable x = true /\ c = sd_cert x /\
+                exists san, In san (c_names c) /\ covers san nm).
+Proof. intros. eapply get_certificate_sound_reachable; eauto. Qed.
+Print Assumptions C03_get_certificate_sound_reachable.
+
+(** non-vacuity: a cache reached through adds, a SetOptions and a handshake that loaded from storage *)
+Example C03_reachable_example :
+  reachable ex_names_of
+    (after_handshake ascii_lower ascii_space (select_cert (fun _ => true) ex_valid) false [] true
+       (dstep (dstep (dinit 0) (DOp (OAdd ex_f None))) (DSetCap 1%Z [])) (Config [] n_fb) n_qy n_ip
+       (EnvX (Some n_qy) [] [] None)).
+Proof.
+  apply reach_handshake; [|intros k x H; discriminate].
+  apply reach_op; [apply reach_op; [apply reach_init|] |]; cbn; [split; [reflexivity | discriminate] | exact I].
+Qed.
+
+(** "an error if and only if no certificate is available", in model terms, any policy: the lookup
+    fails exactly when nothing matched and the IDNA conversion failed, or the name does not qualify,
+    or there is neither a default / fallback certificate nor a servable one to load *)
+Theorem C03_error_iff_nothing_available : forall lower is_space sel conn s cap cfg sni ip e,
+  fst (lookup_x lower is_space sel conn s cap cfg sni ip e) = RErr <->
+  (forall c v, from_cache_x lower is_space sel conn s cfg sni ip <> Some (c, true, v)) /\
+  match hello_name lower is_space cfg ip (x_idna e) with
+  | None => True
+  | Some nm => subject_qualifies is_space nm = false \/
+               (from_cache_x lower is_space sel conn s cfg sni ip = None /\
+                servable_load cap s e nm = false)
+  end.
+Proof. exact lookup_x_error_iff. Qed.
+Print Assumptions C03_error_iff_nothing_available.
+
+(** a stored certificate that is due for renewal but still valid is served and is not in the cache
+    afterwards *)
+Theorem C03_due_certificate_served_then_gone : forall lower is_space sel conn s cap cfg sni ip e x c s',
+  lookup_x lower is_space sel conn s cap cfg sni ip e = (ROk c, s') ->
+  (forall c' v, from_cache_x lower is_space sel conn s cfg sni ip <> Some (c', true, v)) ->
+  load_ok lower is_space cap s cfg ip e x -> sd_servable x = true -> sd_fresh x = false ->
+  c = sd_cert x /\ amem (c_hash c) (cache s') = false.
+Proof. exact due_certificate_served_then_gone. Qed.
+Print Assumptions C03_due_certificate_served_then_gone.
+
+(** GetCertificate as a whole: the cache is touched only when almost full; and for an ordinary
+    ClientHello (made by crypto/tls, no veto, not a TLS-ALPN challenge) with the default policy it IS
+    [lookup], so that every theorem about [lookup] above is a theorem about GetCertificate *)
+Theorem C03_get_certificate_touches_cache_only_when_almost_full :
+  forall lower is_space sel abort protos conn s cap cfg sni ip e,
+  almost_full cap (length (cache s)) = false ->
+  snd (get_certificate lower is_space sel abort protos conn s cap cfg sni ip e) = s.
+Proof. exact get_certificate_touches_only_when_almost_full. Qed.
+Print Assumptions C03_get_certificate_touches_cache_only_when_almost_full.
+
+Theorem C03_get_certificate_is_lookup : forall lower is_space sup valid protos s cap cfg sni ip e,
+  acme_tls_alpn sni protos = false ->
+  fst (get_certificate lower is_space (select_cert sup valid) false protos true s cap cfg sni ip e) =
+  lookup lower is_space sup valid s cap cfg sni ip (env_of lower is_space cfg ip e).
+Proof. exact get_certificate_is_lookup. Qed.
+Print Assumptions C03_get_certificate_is_lookup.
+
+(** the selector double that accepts only supported unexpired choices answers with one *)
+Theorem C03_good_selector_answers_good : forall sup valid l c,
+  custom_pick sup valid PGoodMin l = Some c -> good sup valid c /\ In c l.
+Proof. intros. split; [eapply custom_pick_good; eauto | eapply custom_pick_In; eauto]. Qed.
+Print Assumptions C03_good_selector_answers_good.
+
+Definition n_lo : name := [49; 50; 55; 46; 48; 46; 48; 46; 49]%N.       (* 127.0.0.1 *)
+Definition ex_lo := Cert [108]%N [n_lo] false [] [] 0%Z [].              (* l: 127.0.0.1 *)
+Definition ex_state2 := run 0 init [OAdd ex_e1 None; OAdd ex_w None; OAdd ex_lo None].
+Definition ex_names_of2 (h : hash) : list name := if str_eqb h [108]%N then [n_lo] else ex_names_of h.
+
+Example C03_final_hypotheses_satisfiable :
+  Forall (wf_op ex_names_of2) [OAdd ex_e1 None; OAdd ex_w None; OAdd ex_lo None] /\
+  (* "a.x": only the expired e1 lists the exact name, the wildcard certificate w is fine: e1 it is *)
+  idx ex_state2 n_ax = [[101; 49]%N] /\ ~ good (fun _ => true) ex_valid ex_e1 /\ good (fun _ => true) ex_valid ex_w /\
+  In n_wx (wildcard_candidates n_ax) /\ In ex_w (get_all_matching_certs ex_state2 n_wx) /\
+  lookup ascii_lower ascii_space (fun _ => true) ex_valid ex_state2 0 (Config [] []) n_ax n_ip (Env false true None) = ROk ex_e1 /\
+  (* no SNI, the connection's local address is 127.0.0.1 in 16-byte form: the certificate for 127.0.0.1 *)
+  dotted 127 0 0 1 = n_lo /\
+  fst (lookup_x ascii_lower ascii_space (select_cert (fun _ => true) ex_valid) true ex_state2 0 (Config [] n_fb) []
+         (ip_text (fun _ => []) (v4mapped 127 0 0 1)) (EnvX (Some []) [] [] None)) = ROk ex_lo.
+Proof.
+  split; [repeat constructor; cbn; try discriminate; reflexivity|].
+  split; [vm_compute; reflexivity|].
+  split; [intros [_ H]; vm_compute in H; discriminate|].
+  split; [split; vm_compute; reflexivity|].
+  vm_compute. repeat split; auto.
 Qed.
